@@ -71,6 +71,11 @@ def argv_for(gfa, outdir, order, by_chrom, with_seq):
     return a + [gfa]
 
 
+def stable_hash_int(x):
+    import hashlib
+    return int(hashlib.sha1(x.encode()).hexdigest()[:8], 16)
+
+
 class OrderRun:
     def __init__(self):
         self.outcome = None
@@ -80,7 +85,11 @@ class OrderRun:
 
 
 def run_order(gfa, outdir, order, by_chrom, with_seq, hashseed=None, casedir=None, prop=None, tag="boot"):
-    os.makedirs(outdir, exist_ok=True)
+    # order_gfa creates a missing output directory itself (also nested): leave that to it every other time
+    if stable_hash_int(outdir) % 2 == 0:
+        os.makedirs(outdir, exist_ok=True)
+    else:
+        outdir = os.path.join(outdir, "new", "dir")
     r = OrderRun()
     argv = argv_for(gfa, outdir, order, by_chrom, with_seq)
     r.argv = argv
